@@ -5,34 +5,17 @@ import IdspModel.Lemmas.Basic
 
 `divi` only ever produces arguments of the form `q·2^15 + 2^14` (or `0`).  `atanRun q n` is an executable check
 that `atani` (checked mode: no intermediate overflow) succeeds on the `n` consecutive quotient fields
-`q, q+1, …, q+n-1`, that every result is in `[0, atanMax]` and that the results are non-decreasing.
+`q, q+1, …, q+n-1`, that every result is in `[0, 609661461]` and that the results are non-decreasing.
 The chunk files `Atan2TabNN.lean` evaluate it in the kernel over consecutive (one point overlapping) ranges;
 `Atan2Table.lean` glues the chunks.
 
-For kernel evaluation the model function `atani .checked` is first shown equal to `ataniF`, which uses literal
-powers of two and forces every intermediate integer to a literal (the kernel's reduction is call-by-name, the
-six nested Horner steps would otherwise be re-evaluated exponentially often).  Core Lean only.
+Kernel reduction of `Int` arithmetic is slow (every operation is a pattern match on the sign), so the model
+function `atani .checked` is first related to `ataniN`, a copy on `Nat` in offset-binary representation (`R` stands
+for the `i32` value `R - 2^31`) that forces every intermediate value to a literal; `ataniN_ok` proves
+`ataniN x = some r → atani .checked x = .ok r` for ALL `x`, so the table inherits nothing from the copy but speed.
+Core Lean only.
 -/
 namespace Idsp
-
-/-! ## evaluation-friendly copy of `atani` -/
-
-def okI64 (x : Int) : Bool := decide (-9223372036854775808 ≤ x) && decide (x < 9223372036854775808)
-def okI32 (x : Int) : Bool := decide (-2147483648 ≤ x) && decide (x < 2147483648)
-def wrap32 (x : Int) : Int := (x + 2147483648) % 4294967296 - 2147483648
-
-theorem inI64_eq (x : Int) : inI 64 x = okI64 x := by simp [inI, okI64]
-theorem inI32_eq (x : Int) : inI 32 x = okI32 x := by simp [inI, okI32]
-theorem wrapI32_eq (x : Int) : wrapI 32 x = wrap32 x := by simp [wrapI, wrap32]
-
-/-- `k x`, but the kernel has to bring `x` to a literal before it can continue -/
-def forceInt {α : Type} (x : Int) (k : Int → α) : α :=
-  match x with
-  | .ofNat n => (match n with | 0 => k (Int.ofNat 0) | m + 1 => k (Int.ofNat (m + 1)))
-  | .negSucc n => (match n with | 0 => k (Int.negSucc 0) | m + 1 => k (Int.negSucc (m + 1)))
-
-theorem forceInt_eq {α : Type} (x : Int) (k : Int → α) : forceInt x k = k x := by
-  cases x <;> rename_i n <;> cases n <;> rfl
 
 /-- `k n`, but the kernel has to bring `n` to a literal before it can continue -/
 def forceNat {α : Type} (n : Nat) (k : Nat → α) : α :=
@@ -43,101 +26,156 @@ def forceNat {α : Type} (n : Nat) (k : Nat → α) : α :=
 theorem forceNat_eq {α : Type} (n : Nat) (k : Nat → α) : forceNat n k = k n := by
   cases n <;> rfl
 
-def atanHornerF (x2 : Int) : List Int → Int → Option Int
-  | [], r => some r
-  | a :: as, r =>
-    if okI64 (r * x2) then
-      forceInt (wrap32 (r * x2 / 4294967296) + a) fun r' =>
-        if okI32 r' then atanHornerF x2 as r' else none
-    else none
+/-- Horner fold on offset-binary values: `R` stands for the `i32` value `R - 2^31`, each coefficient `A` for
+    `A - 2^31`; `none` = the `i32` addition overflows. -/
+def hornerN (x2 : Nat) : List Nat → Nat → Option Nat
+  | [], R => some R
+  | A :: as, R =>
+    forceNat ((R * x2 + 9223372036854775808 - 2147483648 * x2) / 4294967296 + A) fun T =>
+      if Nat.ble 2147483648 T && Nat.blt T 6442450944 then hornerN x2 as (T - 2147483648) else none
 
-def ataniF (x : Int) : Option Int :=
-  if okI64 (x * x) then
-    forceInt (wrap32 (x * x / 4294967296)) fun x2 =>
-      match atanHornerF x2
-        [-0x3bc823dd, 0x43b34c81, -0x25b32e0a, 0x0fbdb021, -0x06c6496b, 0x0517c2cd] 0 with
-      | some r => if okI64 (r * x) then some (r * x / 268435456 % 4294967296) else none
-      | none => none
+/-- `atani` on naturals; `none` = some intermediate leaves its type, or the polynomial value is negative -/
+def ataniN (x : Nat) : Option Nat :=
+  forceNat x fun x =>
+  if Nat.blt x 4294967296 && Nat.blt (x * x) 9223372036854775808 then
+    forceNat (x * x / 4294967296) fun x2 =>
+      if Nat.blt x2 2147483648 then
+        match hornerN x2 [1144511523, 3283307649, 1514983926, 2411573281, 2033825429, 2232926925]
+            2147483648 with
+        | some R =>
+          if Nat.ble 2147483648 R then some ((R - 2147483648) * x / 268435456 % 4294967296) else none
+        | none => none
+      else none
   else none
 
-theorem atanHornerF_eq (x2 : Int) : ∀ (as : List Int) (r : Int),
-    (atanHorner .checked x2 as r).toOption = atanHornerF x2 as r := by
+theorem R_ok_bind {α β : Type} (a : α) (f : α → R β) : (Except.ok a >>= f) = f a := rfl
+
+theorem hornerN_ok (x2 : Nat) (hx2 : x2 < 2147483648) : ∀ (as : List Int) (R R' : Nat),
+    (∀ a ∈ as, -2147483648 ≤ a) → R < 4294967296 →
+    hornerN x2 (as.map fun a => (a + 2147483648).toNat) R = some R' →
+    atanHorner .checked (x2 : Int) as ((R : Int) - 2147483648) = .ok ((R' : Int) - 2147483648) ∧
+      R' < 4294967296 := by
   intro as
   induction as with
-  | nil => intro r; simp [atanHorner, atanHornerF, Except.toOption]
+  | nil =>
+    intro R R' _ hR h
+    simp only [List.map_nil, hornerN, Option.some.injEq] at h
+    subst h
+    exact ⟨rfl, hR⟩
   | cons a as ih =>
-    intro r
-    simp only [atanHorner, atanHornerF, arithI, inI64_eq, inI32_eq, wrapI32_eq, shr, forceInt_eq]
-    cases h1 : okI64 (r * x2)
-    · simp [Except.toOption, bind, Except.bind]
-    · simp only [if_true]
-      show (Except.bind (Except.ok (r * x2)) _).toOption = _
-      simp only [Except.bind]
-      have e : (2:Int)^32 = 4294967296 := by decide
-      rw [e]
-      cases h2 : okI32 (wrap32 (r * x2 / 4294967296) + a)
-      · simp [Except.toOption, bind, Except.bind]
-      · simp only [if_true]
-        show (Except.bind (Except.ok _) _).toOption = _
-        simp only [Except.bind]
-        exact ih _
+    intro R R' ha hR h
+    simp only [List.map_cons, hornerN, forceNat_eq] at h
+    split at h
+    · next hc =>
+      simp only [Bool.and_eq_true, Nat.ble_eq, Nat.blt_eq] at hc
+      have ha0 : -2147483648 ≤ a := ha a (List.mem_cons_self ..)
+      obtain ⟨ih1, ih2⟩ := ih _ R' (fun b hb => ha b (List.mem_cons_of_mem _ hb)) (by omega) h
+      refine ⟨?_, ih2⟩
+      -- the model step
+      have hm : R * x2 ≤ 4294967295 * x2 := Nat.mul_le_mul_right x2 (by omega)
+      have e : ((R : Int) - 2147483648) * (x2 : Int) = ((R * x2 : Nat) : Int) - 2147483648 * (x2 : Int) := by
+        rw [Int.sub_mul]; push_cast; rfl
+      generalize R * x2 = m at hm e hc h ih1
+      have e32 : (2:Int) ^ 32 = 4294967296 := by decide
+      have hin64 : inI 64 (((R : Int) - 2147483648) * (x2 : Int)) = true := by
+        rw [e, inI_iff]; simp only [Nat.reduceSub, Int.reducePow]; omega
+      have hs : (((m : Int) - 2147483648 * (x2 : Int)) / 4294967296) =
+          (((m + 9223372036854775808 - 2147483648 * x2) / 4294967296 : Nat) : Int) - 2147483648 := by
+        omega
+      have hin32 : inI 32 (((m : Int) - 2147483648 * (x2 : Int)) / 4294967296) = true := by
+        rw [inI_iff]; simp only [Nat.reduceSub, Int.reducePow]; omega
+      simp only [atanHorner]
+      rw [arithI_ok_of_in hin64]
+      simp only [bind, Except.bind, shr, e32, e]
+      rw [wrapI_of_in (by decide) hin32]
+      have hr' : ((m : Int) - 2147483648 * (x2 : Int)) / 4294967296 + a =
+          (((m + 9223372036854775808 - 2147483648 * x2) / 4294967296 + (a + 2147483648).toNat
+            - 2147483648 : Nat) : Int) - 2147483648 := by
+        rw [hs]; omega
+      rw [hr', arithI_ok_of_in (by rw [inI_iff]; simp only [Nat.reduceSub, Int.reducePow]; omega)]
+      exact ih1
+    · cases h
 
-/-- the evaluation-friendly copy agrees with the model (checked mode), panics mapped to `none` -/
-theorem ataniF_eq (x : Int) : (atani .checked x).toOption = ataniF x := by
-  have hc : atanCoeffs.reverse =
-      [-0x3bc823dd, 0x43b34c81, -0x25b32e0a, 0x0fbdb021, -0x06c6496b, 0x0517c2cd] := by decide
-  simp only [atani, ataniF, arithI, inI64_eq, wrapI32_eq, shr, hc, wrapU, forceInt_eq]
-  have e : (2:Int)^32 = 4294967296 := by decide
-  have e' : (2:Int)^28 = 268435456 := by decide
-  rw [e, e']
-  cases h1 : okI64 (x * x)
-  · simp [Except.toOption, bind, Except.bind]
-  · simp only [if_true]
-    show (Except.bind (Except.ok (x * x)) _).toOption = _
-    simp only [Except.bind]
-    rw [← atanHornerF_eq]
-    cases h2 : atanHorner .checked (wrap32 (x * x / 4294967296))
-      [-0x3bc823dd, 0x43b34c81, -0x25b32e0a, 0x0fbdb021, -0x06c6496b, 0x0517c2cd] 0 with
-    | error e => simp [Except.toOption, bind, Except.bind]
-    | ok r =>
-      simp only [Except.toOption, bind, Except.bind]
-      cases h3 : okI64 (r * x) <;> simp [pure, Except.pure]
-
-theorem ataniF_some {x r : Int} (h : ataniF x = some r) : atani .checked x = .ok r := by
-  rw [← ataniF_eq] at h
-  cases h' : atani .checked x with
-  | error e => rw [h'] at h; simp [Except.toOption] at h
-  | ok v => rw [h'] at h; simp [Except.toOption] at h; rw [h]
+theorem ataniN_ok {x r : Nat} (h : ataniN x = some r) : atani .checked (x : Int) = .ok (r : Int) := by
+  unfold ataniN at h
+  simp only [forceNat_eq] at h
+  split at h
+  · next hc =>
+    simp only [Bool.and_eq_true, Nat.blt_eq] at hc
+    split at h
+    · next hx2 =>
+      simp only [Nat.blt_eq] at hx2
+      split at h
+      · next R hR =>
+        split at h
+        · next hR0 =>
+          simp only [Nat.ble_eq] at hR0
+          simp only [Option.some.injEq] at h
+          have hl : ([1144511523, 3283307649, 1514983926, 2411573281, 2033825429, 2232926925] : List Nat) =
+              atanCoeffs.reverse.map fun a => (a + 2147483648).toNat := by decide +kernel
+          rw [hl] at hR
+          obtain ⟨hh, hR1⟩ := hornerN_ok _ hx2 atanCoeffs.reverse 2147483648 R (by decide +kernel) (by omega) hR
+          have e32 : (2:Int) ^ 32 = 4294967296 := by decide
+          have e28 : (2:Int) ^ 28 = 268435456 := by decide
+          have exx : (x : Int) * (x : Int) = ((x * x : Nat) : Int) := by push_cast; rfl
+          have hin64 : inI 64 ((x : Int) * (x : Int)) = true := by
+            rw [exx, inI_iff]; simp only [Nat.reduceSub, Int.reducePow]; omega
+          have hx2' : wrapI 32 (((x * x : Nat) : Int) / 4294967296) = ((x * x / 4294967296 : Nat) : Int) := by
+            rw [wrapI_of_in (by decide) (by rw [inI_iff]; simp only [Nat.reduceSub, Int.reducePow]; omega)]
+            omega
+          have hx2eq : wrapI 32 (shr ((x : Int) * (x : Int)) 32) = ((x * x / 4294967296 : Nat) : Int) := by
+            unfold shr; rw [e32, exx, hx2']
+          rw [show ((2147483648 : Nat) : Int) - 2147483648 = 0 by omega] at hh
+          have hm : (R - 2147483648) * x ≤ 2147483647 * x := Nat.mul_le_mul_right x (by omega)
+          have e : ((R : Int) - 2147483648) * (x : Int) = (((R - 2147483648) * x : Nat) : Int) := by
+            have : ((R - 2147483648 : Nat) : Int) = (R : Int) - 2147483648 := by omega
+            rw [Int.natCast_mul, this]
+          generalize (R - 2147483648) * x = m at hm e h
+          have hin : inI 64 (m : Int) = true := by
+            rw [inI_iff]; simp only [Nat.reduceSub, Int.reducePow]; omega
+          unfold atani
+          rw [arithI_ok_of_in hin64, R_ok_bind, hx2eq]
+          dsimp only
+          rw [hh, R_ok_bind, e, arithI_ok_of_in hin, R_ok_bind]
+          unfold shr wrapU
+          rw [e32, e28]
+          subst h
+          have : (m : Int) / 268435456 % 4294967296 = ((m / 268435456 % 4294967296 : Nat) : Int) := by omega
+          rw [this]
+        · cases h
+      · cases h
+    · cases h
+  · cases h
 
 /-! ## the table check -/
 
-/-- the largest quotient field `divi` produces outside the defect pair `(3,3)`: `(5,5) ↦ 2^16 + 2^14` -/
-def atanQMax : Nat := 81920
-
-/-- `atani` at the quotient field `81920`, the largest value of the table (`< 2^30`) -/
+/-- `atani` at the quotient field `81920` (the largest that `divi` produces outside the defect pair `(3,3)`:
+    `(5,5) ↦ 2^16 + 2^14`); it is the largest value of the table and `< 2^30` -/
 def atanMax : Int := 609661461
 
 /-- `atani` (checked mode) at the argument that `divi` forms from the quotient field `q` -/
 def atanQ (q : Nat) : R Int := atani .checked ((q : Int) * 2 ^ 15 + 2 ^ 14)
 
 /-- the same through the evaluation-friendly copy -/
-def atanQF (q : Nat) : Option Int := ataniF ((q : Int) * 32768 + 16384)
+def atanQN (q : Nat) : Option Nat := ataniN (q * 32768 + 16384)
 
-theorem atanQF_some {q : Nat} {r : Int} (h : atanQF q = some r) : atanQ q = .ok r := by
-  have e : (2:Int)^15 = 32768 := by decide
-  have e' : (2:Int)^14 = 16384 := by decide
-  unfold atanQ; rw [e, e']; exact ataniF_some h
+theorem atanQN_some {q r : Nat} (h : atanQN q = some r) : atanQ q = .ok (r : Int) := by
+  have e : ((q : Int) * 2 ^ 15 + 2 ^ 14) = ((q * 32768 + 16384 : Nat) : Int) := by
+    have e15 : (2:Int) ^ 15 = 32768 := by decide
+    have e14 : (2:Int) ^ 14 = 16384 := by decide
+    rw [e15, e14]; omega
+  unfold atanQ; rw [e]; exact ataniN_ok h
 
 /-- generic executable table check: `f` succeeds on `q, …, q+n-1`, values non-decreasing, `≥ prev`, `≤ B` -/
-def runTab (f : Nat → Option Int) (B : Int) : Int → Nat → Nat → Bool
+def runTab (f : Nat → Option Nat) (B : Nat) : Nat → Nat → Nat → Bool
   | _, _, 0 => true
   | prev, q, n + 1 =>
     match f q with
-    | some r => forceInt r fun r => forceNat (q + 1) fun q' =>
-        decide (prev ≤ r) && (decide (r ≤ B) && runTab f B r q' n)
+    | some r => forceNat r fun r => forceNat (q + 1) fun q' =>
+        Nat.ble prev r && (Nat.ble r B && runTab f B r q' n)
     | none => false
 
-theorem runTab_spec (f : Nat → Option Int) (B : Int) : ∀ (n : Nat) (prev : Int) (q : Nat),
+theorem runTab_spec (f : Nat → Option Nat) (B : Nat) : ∀ (n : Nat) (prev : Nat) (q : Nat),
     runTab f B prev q n = true →
     ∀ i, i < n → ∃ r, f (q + i) = some r ∧ prev ≤ r ∧ r ≤ B ∧
       (i + 1 < n → ∃ r', f (q + i + 1) = some r' ∧ r ≤ r') := by
@@ -149,7 +187,7 @@ theorem runTab_spec (f : Nat → Option Int) (B : Int) : ∀ (n : Nat) (prev : I
     unfold runTab at h
     split at h
     · next r hr =>
-      simp only [forceInt_eq, forceNat_eq, Bool.and_eq_true, decide_eq_true_eq] at h
+      simp only [forceNat_eq, Bool.and_eq_true, Nat.ble_eq] at h
       obtain ⟨h1, h2, h3⟩ := h
       cases i with
       | zero =>
@@ -165,15 +203,15 @@ theorem runTab_spec (f : Nat → Option Int) (B : Int) : ∀ (n : Nat) (prev : I
     · cases h
 
 /-- executable table check for `atani`, see the module doc -/
-def atanRun (q n : Nat) : Bool := runTab atanQF atanMax 0 q n
+def atanRun (q n : Nat) : Bool := runTab atanQN 609661461 0 q n
 
 theorem atanRun_spec {q n : Nat} (h : atanRun q n = true) :
-    ∀ i, i < n → ∃ r, atanQ (q + i) = .ok r ∧ 0 ≤ r ∧ r ≤ atanMax ∧
-      (i + 1 < n → ∃ r', atanQ (q + i + 1) = .ok r' ∧ r ≤ r') := by
+    ∀ i, i < n → ∃ r : Nat, atanQ (q + i) = .ok (r : Int) ∧ r ≤ 609661461 ∧
+      (i + 1 < n → ∃ r' : Nat, atanQ (q + i + 1) = .ok (r' : Int) ∧ r ≤ r') := by
   intro i hi
-  obtain ⟨r, hr, h0, h1, h2⟩ := runTab_spec atanQF atanMax n 0 q h i hi
-  refine ⟨r, atanQF_some hr, h0, h1, fun hn => ?_⟩
+  obtain ⟨r, hr, _, h1, h2⟩ := runTab_spec atanQN 609661461 n 0 q h i hi
+  refine ⟨r, atanQN_some hr, h1, fun hn => ?_⟩
   obtain ⟨r', hr', hle⟩ := h2 hn
-  exact ⟨r', atanQF_some hr', hle⟩
+  exact ⟨r', atanQN_some hr', hle⟩
 
 end Idsp
